@@ -18,7 +18,12 @@ def run(ctx):
         if j["mode"] != "serial":
             j["workers"] = rng.choice([2, 3, 4, 8])
             j["pool_perm"] = rng.randrange(10 ** 6)
-    results = pmap(trace.run_traced, js, jobs=8)
+    # short serial runs whose optimum sits on the border of the box (stagnating runs: nothing improves before the budget ends), both directions
+    for name in optimizers.names():
+        for obj, mm in (("sphere", "max"), ("neg", "min"), ("sphere", "min"), ("linear", "max")) if not ctx.thorough else [(o, m) for o in ("sphere", "neg", "linear", "rastrigin") for m in ("min", "max")] * 2:
+            js.append({"name": name, "kind": "border-optimum", "specs": trace.task_specs(rng, rng.choice(["cont-sym", "cont"]), rng.choice([2, 3])), "objective": obj, "minmax": mm,
+                       "seed": rng.randrange(1, 10 ** 6), "cfg": {"max_cycles": rng.choice([1, 1, 2, 3]), "fitness_error": None}, "mode": "serial", "trace": False})
+    results = pmap(trace.run_traced, js)
     for r in results:
         ctx.case(repr(oracles.job_key(r["job"])), nontrivial="result" in r, kind=f"final-generation:{r['job']['mode']}:{'ok' if 'result' in r else 'raised'}")
     oracles.check_c03(ctx, results)
